@@ -1016,3 +1016,17 @@ func init() {
 		return p.appendOp(a[0], a[1])
 	})
 }
+
+func init() {
+	reg("strings.Compare", func(p *Path, _ *frame, a []Value, _ token.Pos) Value {
+		x, y := a[0].(*Term), a[1].(*Term)
+		return Ite(Eq(x, y), TInt64(0), Ite(StrLt(x, y), TInt64(-1), TInt64(1)))
+	})
+	strOf := func(kind string) intrinsicFn {
+		return func(p *Path, _ *frame, a []Value, _ token.Pos) Value { return p.formatUF(kind, a[:1]) }
+	}
+	reg("("+pkSDK+".Coin).String", strOf("coin_str"))
+	reg("("+pkSDK+".Coins).String", strOf("coins_str"))
+	reg("("+pkSDK+".DecCoin).String", strOf("deccoin_str"))
+	reg("("+pkSDK+".DecCoins).String", strOf("deccoins_str"))
+}
